@@ -8,7 +8,7 @@ use sophia_api::{
         StreamError::{SinkError, SourceError},
         StreamResult,
     },
-    term::Term,
+    term::{CmpTerm, Term},
 };
 use std::collections::{BTreeSet, HashMap};
 
@@ -98,14 +98,21 @@ where
 }
 
 fn prepare_dataset<D: Dataset>(d: &D) -> Result<PreparedDataset<D>, D::Error> {
-    d.quads()
+    // Graph and Dataset implementations are allowed to yield duplicates,
+    // so quads are first collected in a set (with *exact* term comparison, bnode labels included)
+    let quads: BTreeSet<Spog<CmpTerm<DTerm<'_, D>>>> = d
+        .quads()
         .map(|res| {
             res.map(|q| {
                 let (spo, g) = q.to_spog();
-                (spo.map(IsoTerm), g.map(IsoTerm))
+                (spo.map(CmpTerm), g.map(CmpTerm))
             })
         })
-        .collect()
+        .collect::<Result<_, _>>()?;
+    Ok(quads
+        .into_iter()
+        .map(|(spo, g)| (spo.map(|t| IsoTerm(t.0)), g.map(|t| IsoTerm(t.0))))
+        .collect())
 }
 
 type PreparedDataset<'a, D> = Vec<Spog<IsoTerm<DTerm<'a, D>>>>;
